@@ -296,9 +296,8 @@ def g_step_sym(sa, sb):
             NORMAL["v"] = list(sb * (n * M))
             B, okB = _run3d(T, MX, -1)
             lab = f"tilted centre, any plane, svd signs ({sa:+d},{sb:+d})"
-            va = _vol(A, 0, (1, 2, 3))
             goals = [(f"{lab}: constitution unchanged", z3.BoolVal(not (okA and okB))),
-                     (f"control: {lab}: centre can be non-planar (must be sat)", E(va) != 0)]
+                     (f"control: {lab}: the marked atom stays where it was (must be sat)", E(A[1][2]) != E(X[1][2]))]
             goals += [(f"{lab}: model of the mirrored drawing = mirror image of the model, atom {i} [{k}] (=> handedness inverted)", E(B[i][k]) != E(A[i][k]) * (1 if k < 2 else -1))
                       for i in (1, 4) for k in range(3)]
             for i in T["fixed"]:
